@@ -80,8 +80,12 @@ C11Ok(e, pre, r, hadResp) ==
   /\ (r.hasPost => GrowthBound(pre, r.post, IF e.op = "ireq" THEN MsgOf(e.req) ELSE [pay |-> << >>]))
   /\ (r.hasPost /\ e.op = "ireq" => JumpRejected(pre, MsgOf(e.req), r))
 
-\* C12, every call: the reply carries the current request's id and token
-C12Ok(e, r) == (r.out.k = "ok" /\ e.op = "ireq") => ReplyIdentity(MsgOf(e.req), r.resp)
+\* C12, every call: the reply carries the current request's id and token - in the prepared
+\* reply and in the datagram a client parses (e.wire is the reply decoded from its encoding)
+WireOk(e, r) == (r.resp.some /\ HasField(e, "wire") /\ Encodable(r.resp.v)) =>
+                  (e.wire.k = "ok" /\ MsgOf(e.wire.v) = Norm(r.resp.v) /\ e.wire.v.tkl = Len(r.resp.v.tok))
+C12Ok(e, r) == /\ (r.out.k = "ok" /\ e.op = "ireq") => ReplyIdentity(MsgOf(e.req), r.resp)
+               /\ (r.out.k = "ok" => WireOk(e, r))
 
 ReqSize(m) == NonPayload(m) + (IF m.pay = << >> THEN 0 ELSE 1 + Len(m.pay))
 
